@@ -529,7 +529,7 @@ theorem hent1 : (bal w0 pair11.a1 11 + 2 * E) * supply w0 pair11.lp ≤ bal w0 p
 
 /-- `C20.withdraw_live` applies -/
 theorem send_ok : ∃ w' x0 x1, tokSendPair w0 12 2 11 1000 .withdraw = .ok (w', .withdraw x0 x1) ∧ 2 ≤ x0 ∧ 2 ≤ x1 :=
-  Halo.Props.C20.withdraw_live hP hhp hne hl0 hl1 hlp ht0 ht1 ha1 hab haS hr0 hr1 hSW hent0 hent1
+  Halo.Props.C20.withdraw_live hP hhp rfl hne hl0 hl1 hlp ht0 ht1 ha1 hab haS hr0 hr1 hSW hent0 hent1
 
 def opW : Op := .tokSend 12 2 11 1000 .withdraw
 
